@@ -48,7 +48,12 @@ fn packed_lists(rg: &mut StdRng, which: usize) -> Pats {
     let pick = |rg: &mut StdRng, pool: &[u8], lo: usize, hi: usize| -> Vec<u8> {
         (0..rg.gen_range(lo..=hi)).map(|_| pool[rg.gen_range(0..pool.len())]).collect()
     };
-    match which % 9 {
+    match which % 10 {
+        // long patterns (the Rabin-Karp hash window is the shortest pattern: 64-bit wrap-around)
+        9 => {
+            let base = [63usize, 64, 65, 66, 96, 129][rg.gen_range(0..6)];
+            (0..rg.gen_range(1..=3)).map(|k| (0..base + k * 3).map(|j| b"abcdefgh"[(j * (k + 3) + j / 7) % 8]).collect()).collect()
+        }
         // many patterns with byte-identical duplicates (ties must go to the first supplied)
         8 => {
             let words: Vec<Vec<u8>> = (0..rg.gen_range(7..=12)).map(|i| { let mut w = pick(rg, b"abcde", 2, 5); w.push(b'a' + i as u8); w }).collect();
@@ -93,7 +98,7 @@ pub fn run(out_prefix: &str, shards: usize, seed: u64, scale: usize) -> PStats {
     let mut rg = gen::rng(seed, 0x9AC0_0001);
     let mut shard = 0usize;
     for i in 0..(10 * scale) {
-        let mut pats = packed_lists(&mut rg, i);
+        let mut pats = packed_lists(&mut rg, if i % 10 == 7 { 9 } else { i });
         // the fingerprint length is min(4, shortest pattern): cycle the shortest length
         // through 1, 2, 3, 4, 5 by extending the patterns that are too short
         let want_min = 1 + i % 5;
@@ -124,6 +129,11 @@ pub fn run(out_prefix: &str, shards: usize, seed: u64, scale: usize) -> PStats {
                 let lens: Vec<usize> = if scale > 1 { (0..=70).collect() } else {
                     (0..=4).chain(15..=21).chain(31..=38).chain(47..=51).chain(63..=69).collect()
                 };
+                let maxp = pats.iter().map(|p| p.len()).max().unwrap_or(0);
+                let mut lens = lens.clone();
+                if maxp > 40 {
+                    lens = vec![maxp, maxp + 1, maxp + 5, maxp + 17, 2 * maxp + 9];
+                }
                 for &len in &lens {
                     let p = &pats[rg.gen_range(0..pats.len())];
                     // a planted match at every offset that is near a window boundary
